@@ -1,0 +1,415 @@
+//! Verification-only model file system (compiled only under `cfg(kani)`, i.e. by kani-compiler).
+//!
+//! Replaces `std::fs::{File, OpenOptions, create_dir_all, remove_file}` and `lru::LruCache` inside
+//! `freezer_files.rs` so that the real freezer code can be executed symbolically: a fixed table of
+//! in-memory files and open-file descriptions with POSIX semantics. `File::try_clone` shares the
+//! file offset with the original handle (that is what `dup(2)` does).
+#![allow(dead_code, missing_docs, static_mut_refs)]
+
+use std::io::{Error as IoError, ErrorKind, Read, Seek, SeekFrom, Write};
+use std::path::Path;
+
+/// capacity in bytes of a model data file / of the index file
+pub const DATA_CAP: usize = 8;
+pub const INDEX_CAP: usize = 72;
+/// data file ids 0..NDATA are representable
+pub const NDATA: usize = 4;
+pub const NOFD: usize = 12;
+pub const INDEX_INODE: usize = NDATA;
+
+#[derive(Clone, Copy)]
+pub struct Inode {
+    pub exists: bool,
+    pub len: usize,
+    pub data: [u8; INDEX_CAP],
+}
+
+#[derive(Clone, Copy)]
+pub struct Ofd {
+    pub used: bool,
+    pub inode: usize,
+    pub pos: u64,
+}
+
+pub struct Fs {
+    pub inodes: [Inode; NDATA + 1],
+    pub ofds: [Ofd; NOFD],
+    /// file id passed to the last `helper::file_name` call and not yet consumed by an open/remove
+    pub pending_name: Option<u32>,
+    /// number of `sync_all` calls (observability for harnesses)
+    pub syncs: u32,
+}
+
+pub static mut FS: Fs = Fs {
+    inodes: [Inode { exists: false, len: 0, data: [0; INDEX_CAP] }; NDATA + 1],
+    ofds: [Ofd { used: false, inode: 0, pos: 0 }; NOFD],
+    pending_name: None,
+    syncs: 0,
+};
+
+fn cap_of(inode: usize) -> usize {
+    if inode == INDEX_INODE { INDEX_CAP } else { DATA_CAP }
+}
+
+/// control interface for harnesses
+pub mod ctl {
+    use super::*;
+
+    pub fn reset() {
+        unsafe {
+            let mut i = 0;
+            while i < NDATA + 1 {
+                FS.inodes[i].exists = false;
+                FS.inodes[i].len = 0;
+                i += 1;
+            }
+            let mut j = 0;
+            while j < NOFD {
+                FS.ofds[j].used = false;
+                j += 1;
+            }
+            FS.pending_name = None;
+            FS.syncs = 0;
+        }
+    }
+
+    /// the file-name side channel: `helper::file_name` is stubbed by harnesses to call this
+    pub fn name_file(id: u32) {
+        unsafe { FS.pending_name = Some(id) }
+    }
+
+    pub fn exists(inode: usize) -> bool {
+        unsafe { FS.inodes[inode].exists }
+    }
+
+    pub fn len(inode: usize) -> usize {
+        unsafe { FS.inodes[inode].len }
+    }
+
+    pub fn byte(inode: usize, at: usize) -> u8 {
+        unsafe { FS.inodes[inode].data[at] }
+    }
+
+    pub fn create(inode: usize) {
+        unsafe {
+            FS.inodes[inode].exists = true;
+            FS.inodes[inode].len = 0;
+        }
+    }
+
+    pub fn remove(inode: usize) {
+        unsafe { FS.inodes[inode].exists = false }
+    }
+
+    pub fn push(inode: usize, b: u8) {
+        unsafe {
+            let l = FS.inodes[inode].len;
+            FS.inodes[inode].data[l] = b;
+            FS.inodes[inode].len = l + 1;
+        }
+    }
+
+    /// cut a file to `len` bytes (crash model)
+    pub fn cut(inode: usize, len: usize) {
+        unsafe {
+            if len < FS.inodes[inode].len {
+                FS.inodes[inode].len = len;
+            }
+        }
+    }
+
+    /// forget every open handle (process death)
+    pub fn close_all() {
+        unsafe {
+            let mut j = 0;
+            while j < NOFD {
+                FS.ofds[j].used = false;
+                j += 1;
+            }
+            FS.pending_name = None;
+        }
+    }
+
+    pub fn syncs() -> u32 {
+        unsafe { FS.syncs }
+    }
+}
+
+pub struct File {
+    ofd: usize,
+}
+
+fn alloc_ofd(inode: usize) -> Result<usize, IoError> {
+    unsafe {
+        let mut j = 0;
+        while j < NOFD {
+            if !FS.ofds[j].used {
+                FS.ofds[j] = Ofd { used: true, inode, pos: 0 };
+                return Ok(j);
+            }
+            j += 1;
+        }
+    }
+    // model capacity exceeded: outside the bound of the harness
+    kani::assume(false);
+    Err(IoError::from(ErrorKind::Other))
+}
+
+impl File {
+    pub fn set_len(&self, size: u64) -> Result<(), IoError> {
+        unsafe {
+            let ino = FS.ofds[self.ofd].inode;
+            let size = size as usize;
+            kani::assume(size <= cap_of(ino));
+            let mut l = FS.inodes[ino].len;
+            while l < size {
+                FS.inodes[ino].data[l] = 0;
+                l += 1;
+            }
+            FS.inodes[ino].len = size;
+        }
+        Ok(())
+    }
+
+    pub fn sync_all(&self) -> Result<(), IoError> {
+        unsafe { FS.syncs = FS.syncs.wrapping_add(1) }
+        Ok(())
+    }
+
+    /// `dup(2)`: the clone refers to the same open file description (shared offset)
+    pub fn try_clone(&self) -> Result<File, IoError> {
+        Ok(File { ofd: self.ofd })
+    }
+
+    fn do_read_exact(&self, buf: &mut [u8]) -> Result<(), IoError> {
+        unsafe {
+            let ino = FS.ofds[self.ofd].inode;
+            let pos = FS.ofds[self.ofd].pos as usize;
+            let n = buf.len();
+            if FS.ofds[self.ofd].pos > FS.inodes[ino].len as u64 || pos + n > FS.inodes[ino].len {
+                return Err(IoError::from(ErrorKind::UnexpectedEof));
+            }
+            let mut i = 0;
+            while i < n {
+                buf[i] = FS.inodes[ino].data[pos + i];
+                i += 1;
+            }
+            FS.ofds[self.ofd].pos = (pos + n) as u64;
+        }
+        Ok(())
+    }
+
+    fn do_write_all(&self, buf: &[u8]) -> Result<(), IoError> {
+        unsafe {
+            let ino = FS.ofds[self.ofd].inode;
+            let n = buf.len();
+            kani::assume(FS.ofds[self.ofd].pos <= cap_of(ino) as u64);
+            let pos = FS.ofds[self.ofd].pos as usize;
+            kani::assume(pos + n <= cap_of(ino));
+            // writing beyond the end leaves a zero-filled hole
+            let mut l = FS.inodes[ino].len;
+            while l < pos {
+                FS.inodes[ino].data[l] = 0;
+                l += 1;
+            }
+            let mut i = 0;
+            while i < n {
+                FS.inodes[ino].data[pos + i] = buf[i];
+                i += 1;
+            }
+            if pos + n > FS.inodes[ino].len {
+                FS.inodes[ino].len = pos + n;
+            }
+            FS.ofds[self.ofd].pos = (pos + n) as u64;
+        }
+        Ok(())
+    }
+
+    fn do_seek(&self, to: SeekFrom) -> Result<u64, IoError> {
+        unsafe {
+            let ino = FS.ofds[self.ofd].inode;
+            let np = match to {
+                SeekFrom::Start(x) => x,
+                SeekFrom::End(d) => (FS.inodes[ino].len as i64 + d) as u64,
+                SeekFrom::Current(d) => (FS.ofds[self.ofd].pos as i64 + d) as u64,
+            };
+            FS.ofds[self.ofd].pos = np;
+            Ok(np)
+        }
+    }
+}
+
+impl Read for File {
+    fn read(&mut self, buf: &mut [u8]) -> Result<usize, IoError> {
+        self.do_read_exact(buf).map(|_| buf.len())
+    }
+    fn read_exact(&mut self, buf: &mut [u8]) -> Result<(), IoError> {
+        self.do_read_exact(buf)
+    }
+}
+
+impl Read for &File {
+    fn read(&mut self, buf: &mut [u8]) -> Result<usize, IoError> {
+        self.do_read_exact(buf).map(|_| buf.len())
+    }
+    fn read_exact(&mut self, buf: &mut [u8]) -> Result<(), IoError> {
+        self.do_read_exact(buf)
+    }
+}
+
+impl Write for File {
+    fn write(&mut self, buf: &[u8]) -> Result<usize, IoError> {
+        self.do_write_all(buf).map(|_| buf.len())
+    }
+    fn write_all(&mut self, buf: &[u8]) -> Result<(), IoError> {
+        self.do_write_all(buf)
+    }
+    fn flush(&mut self) -> Result<(), IoError> {
+        Ok(())
+    }
+}
+
+impl Seek for File {
+    fn seek(&mut self, pos: SeekFrom) -> Result<u64, IoError> {
+        self.do_seek(pos)
+    }
+    fn rewind(&mut self) -> Result<(), IoError> {
+        self.do_seek(SeekFrom::Start(0)).map(|_| ())
+    }
+}
+
+impl Seek for &File {
+    fn seek(&mut self, pos: SeekFrom) -> Result<u64, IoError> {
+        self.do_seek(pos)
+    }
+}
+
+#[derive(Clone, Copy, Default)]
+pub struct OpenOptions {
+    read: bool,
+    write: bool,
+    create: bool,
+    truncate: bool,
+}
+
+impl OpenOptions {
+    pub fn new() -> Self {
+        OpenOptions::default()
+    }
+    pub fn read(&mut self, v: bool) -> &mut Self {
+        self.read = v;
+        self
+    }
+    pub fn write(&mut self, v: bool) -> &mut Self {
+        self.write = v;
+        self
+    }
+    pub fn create(&mut self, v: bool) -> &mut Self {
+        self.create = v;
+        self
+    }
+    pub fn truncate(&mut self, v: bool) -> &mut Self {
+        self.truncate = v;
+        self
+    }
+    /// The path itself is not interpreted: the data file id comes from the preceding
+    /// `helper::file_name(id)` call (side channel); a path not preceded by one is the INDEX file.
+    pub fn open<P: AsRef<Path>>(&self, _path: P) -> Result<File, IoError> {
+        let inode = unsafe {
+            match FS.pending_name.take() {
+                Some(id) => {
+                    kani::assume((id as usize) < NDATA);
+                    id as usize
+                }
+                None => INDEX_INODE,
+            }
+        };
+        unsafe {
+            if !FS.inodes[inode].exists {
+                if self.create {
+                    FS.inodes[inode].exists = true;
+                    FS.inodes[inode].len = 0;
+                } else {
+                    return Err(IoError::from(ErrorKind::NotFound));
+                }
+            }
+            if self.truncate {
+                FS.inodes[inode].len = 0;
+            }
+        }
+        let ofd = alloc_ofd(inode)?;
+        Ok(File { ofd })
+    }
+}
+
+pub fn create_dir_all<P: AsRef<Path>>(_p: P) -> Result<(), IoError> {
+    Ok(())
+}
+
+pub fn remove_file<P: AsRef<Path>>(_p: P) -> Result<(), IoError> {
+    unsafe {
+        match FS.pending_name.take() {
+            Some(id) => {
+                kani::assume((id as usize) < NDATA);
+                if !FS.inodes[id as usize].exists {
+                    return Err(IoError::from(ErrorKind::NotFound));
+                }
+                FS.inodes[id as usize].exists = false;
+                Ok(())
+            }
+            None => Err(IoError::from(ErrorKind::NotFound)),
+        }
+    }
+}
+
+/// Stand-in for `lru::LruCache` (hashbrown is out of reach for the model checker): an association
+/// list. Eviction below the capacity is not modelled (harnesses keep fewer files than the limit).
+pub struct LruCache<K, V> {
+    items: Vec<(K, V)>,
+    cap: usize,
+}
+
+impl<K: PartialEq + Copy, V> LruCache<K, V> {
+    pub fn new(cap: usize) -> Self {
+        LruCache { items: Vec::new(), cap }
+    }
+    pub fn get(&mut self, k: &K) -> Option<&V> {
+        let mut i = 0;
+        while i < self.items.len() {
+            if self.items[i].0 == *k {
+                return Some(&self.items[i].1);
+            }
+            i += 1;
+        }
+        None
+    }
+    pub fn put(&mut self, k: K, v: V) -> Option<V> {
+        let mut i = 0;
+        while i < self.items.len() {
+            if self.items[i].0 == k {
+                let old = std::mem::replace(&mut self.items[i].1, v);
+                return Some(old);
+            }
+            i += 1;
+        }
+        kani::assume(self.items.len() < self.cap);
+        self.items.push((k, v));
+        None
+    }
+    pub fn pop(&mut self, k: &K) -> Option<V> {
+        let mut i = 0;
+        while i < self.items.len() {
+            if self.items[i].0 == *k {
+                return Some(self.items.remove(i).1);
+            }
+            i += 1;
+        }
+        None
+    }
+    pub fn clear(&mut self) {
+        self.items.clear();
+    }
+    pub fn iter(&self) -> impl Iterator<Item = (&K, &V)> {
+        self.items.iter().map(|(k, v)| (k, v))
+    }
+}
